@@ -551,9 +551,9 @@ namespace xsimd
             }
             batch_type z = batch_type(1.) - ex * detail::erf_kernel<batch_type>::erfc3(x);
             z = select(self < batch_type(0.), -z, z);
-#ifndef XSIMD_NO_INFINITIES
-            z = select(xsimd::isinf(self), sign(self), z);
-#endif
+            // erf(x) rounds to +-1 from |x| = 6 on; this also keeps huge finite arguments, for which
+            // the rational approximation overflows to inf / inf, and +-inf out of the result
+            z = select(x >= batch_type(6.), sign(self), z);
             return select(test2, r1, z);
         }
 
@@ -612,9 +612,9 @@ namespace xsimd
             }
             batch_type z = ex * detail::erf_kernel<batch_type>::erfc3(x);
             r1 = select(test2, r1, z);
-#ifndef XSIMD_NO_INFINITIES
-            r1 = select(x == constants::infinity<batch_type>(), batch_type(0.), r1);
-#endif
+            // erfc(x) underflows to 0 beyond 28; this also covers huge finite arguments, for which
+            // the rational approximation overflows to inf / inf, and +inf
+            r1 = select(x > batch_type(28.), batch_type(0.), r1);
             return select(test0, batch_type(2.) - r1, r1);
         }
 
